@@ -13,6 +13,10 @@
 (***************************************************************************)
 EXTENDS Params, TLC
 
+(* Option-valued results as logged by the harness: <<"none">> or <<"some", v>> *)
+IsNone(o) == Len(o) = 1 /\ o[1] = "none"
+IsSome(o) == Len(o) = 2 /\ o[1] = "some"
+
 -----------------------------------------------------------------------------
 (* prime fields *)
 FpAdd(p, a, b) == AddMod(a, b, p)
